@@ -68,6 +68,15 @@ def _first_lean_error(logtxt):
     return m.group(1) if m else logtxt[-1500:]
 
 
+def extra_stream_modules(pid):
+    out = []
+    d = os.path.join(os.path.dirname(os.path.abspath(__file__)), "props")
+    for f in sorted(os.listdir(d)):
+        if re.fullmatch(re.escape(pid.lower()) + r"_[a-z0-9_]+\.py", f):
+            out.append(importlib.import_module("pcv.props." + f[:-3]))
+    return out
+
+
 def run_stream(ctx, st):
     """Run one stream; returns list of disagreements."""
     res = ctx.res
@@ -133,7 +142,9 @@ def run_stream(ctx, st):
                             "model": (model[i][:200] if i < len(model) else None)})
     for d in dis:
         d["stream"] = st.name
-        d["oracle"] = st.oracle
+        if d.get("crash"):
+            d["oracle"] = True              # the real code crashed / hung on this op: that op IS a failing input
+        d.setdefault("oracle", st.oracle)   # a judge may decide per disagreement (L1 monitor: is the PROPERTY itself violated?)
     return dis
 
 
@@ -158,20 +169,21 @@ def finish(ctx, mod, level_note):
         "coverage": {
             "obligations": res.obligations, "discharged": res.discharged,
             "checker_cmd": "cd /verif/lean && lake build PcProps.%s pcdrv && lake env lean PcProps/%s.lean  (axiom audit; thorough: lake env leanchecker PcProps.%s)" % (pid, pid, pid),
-            "trusted_base": getattr(mod, "TRUSTED", []) + [
+            "trusted_base": getattr(mod, "TRUSTED", []) + [t for em in extra_stream_modules(pid) for t in getattr(em, "TRUSTED", [])] + [
                 "Lean 4.33.0 kernel; axioms allowed: propext, Classical.choice, Quot.sound (measured per theorem below)",
                 "Mathlib v4.33.0 definitions used as vocabulary",
                 "translator /verif/translator + sampled correspondence harness<->pcdrv (differential testing)"],
             "theorem_axioms": res.theorems,
             "evaluations": res.evaluations,
             "distinct_nontrivial": len(res.distinct),
-            "rule": getattr(mod, "RULE", "ops generated from VERIF_SEED; distinct = distinct op lines"),
+            "rule": " || ".join([getattr(mod, "RULE", "ops generated from VERIF_SEED; distinct = distinct op lines")] +
+                                [em.RULE for em in extra_stream_modules(pid) if hasattr(em, "RULE")]),
             "samples": res.samples[:12] if res.samples else [{"note": "no correspondence stream in this check"}],
             "streams": res.stream_stats,
             "known_findings_hit": res.known,
             "notes": res.notes,
         },
-        "assumptions": getattr(mod, "ASSUMPTIONS", []),
+        "assumptions": getattr(mod, "ASSUMPTIONS", []) + [t for em in extra_stream_modules(pid) for t in getattr(em, "ASSUMPTIONS", [])],
         "wall_s": round(wall, 2),
         "violations": len(res.violations),
     }
@@ -222,7 +234,13 @@ def check_property(pid, tier, seed):
                            dict(failing_input=None, broken="lake build pcdrv", log=logtxt[-4000:]))
             return finish(ctx, mod, "")
         # EXTRA_MODULES: further property-theorem files of this property (PcProps/<Cxx><Suffix>.lean), audited the same way
-        lean_mods = [lean_mod] + ["PcProps." + m for m in getattr(mod, "EXTRA_MODULES", [])]
+        # ... plus every lean/PcProps/<Cxx><Suffix>.lean (Suffix starting with a capital letter) found on disk
+        extra = list(getattr(mod, "EXTRA_MODULES", []))
+        for f in sorted(os.listdir(os.path.join(core.LEAN, "PcProps"))):
+            m = re.fullmatch(re.escape(pid) + r"[A-Z][A-Za-z0-9]*\.lean", f)
+            if m and f[:-5] not in extra:
+                extra.append(f[:-5])
+        lean_mods = [lean_mod] + ["PcProps." + m for m in extra]
         rc, logtxt, secs = core.lake_build(lean_mods)
         res.extra["lake_secs"] = round(secs, 1)
         res.extra["lean_modules"] = lean_mods
@@ -255,6 +273,9 @@ def check_property(pid, tier, seed):
         # 5. correspond
         all_dis = []
         streams = mod.streams(ctx)
+        # extra stream modules pcv/props/<cxx>_<name>.py (each with streams(ctx), optional RULE / TRUSTED / ASSUMPTIONS)
+        for em in extra_stream_modules(pid):
+            streams += em.streams(ctx)
         for st in streams:
             all_dis += run_stream(ctx, st)
         # 6. on break
